@@ -57,6 +57,9 @@ func ParseFilterRules(rules []string) (*filterRuleList, error) {
 	return &l, nil
 }
 
+// Matches reports whether the rules exclude name.
+func (l *filterRuleList) Matches(name string) bool { return l.matches(name) }
+
 // exclude.c:recv_filter_list
 func RecvFilterList(c *rsyncwire.Conn) (*filterRuleList, error) {
 	var l filterRuleList
